@@ -51,6 +51,58 @@ def body_format(case, rec):
         raise Violation(msg)
 
 
+def body_built(case, rec):
+    """
+    Scaffolds grown step by step through the public methods (rows at construction, add_row, append_scaffold with and
+    without a gap, reverse), with the length properties READ between steps: the AGP written at the end must be valid and
+    its last object end must equal both the model's length and what Scaffold.length / Assembly.length report then.
+    """
+    from tola.assembly.assembly import Assembly
+    from tola.assembly.scaffold import Scaffold
+
+    asm = Assembly("x")
+    model = []
+    kinds = set()
+    for name, ops in case["scaffolds"]:
+        sc = None
+        rows = []
+        for op in ops:
+            kinds.add(op[0])
+            if op[0] == "new":
+                sc = Scaffold(name, conv.mk_rows(op[1]))
+                rows = [list(r) for r in op[1]]
+            elif op[0] == "read":
+                got = (sc.length, sc.fragments_length, sc.gaps_length)
+                want = (ref.rows_len(rows), sum(r[3] - r[2] + 1 for r in rows if r[0] == "F"), sum(r[1] for r in rows if r[0] == "G"))
+                if got != want:
+                    raise Violation(f"{name}: (length, fragments_length, gaps_length) = {got}, rows say {want}")
+            elif op[0] == "add_row":
+                sc.add_row(conv.mk_row(op[1]))
+                rows.append(list(op[1]))
+            elif op[0] == "append":
+                other = Scaffold("other", conv.mk_rows(op[1]))
+                gap = conv.mk_row(op[2]) if op[2] else None
+                sc.append_scaffold(other, gap)
+                if gap is not None and rows:
+                    rows.append(list(op[2]))
+                rows.extend(list(r) for r in op[1])
+            elif op[0] == "reverse":
+                sc = sc.reverse()
+                rows = [([x[0], x[1], x[2], x[3], -x[4], *x[5:]] if x[0] == "F" else x) for x in reversed(rows)]
+        asm.add_scaffold(sc)
+        model.append([name, rows])
+    rec.note(case, {"read", "append"} <= kinds and rich(model, False), kinds)
+    text = must(agp_text, asm, what="format_agp")
+    msg = ref.agp_validate(text, {n: ref.rows_len(rows) for n, rows in model if rows})
+    if msg:
+        raise Violation(msg)
+    for sc, (name, rows) in zip(asm.scaffolds, model):
+        if sc.length != ref.rows_len(rows):
+            raise Violation(f"{name}: Scaffold.length reports {sc.length} when the AGP is written, its rows (and the AGP's last object end) total {ref.rows_len(rows)}")
+    if asm.length != sum(ref.rows_len(rows) for _n, rows in model):
+        raise Violation(f"Assembly.length reports {asm.length}, the scaffolds total {sum(ref.rows_len(rows) for _n, rows in model)}")
+
+
 def body_remap(case, rec):
     try:
         res = remap.run_api(case)
@@ -152,8 +204,11 @@ def body_cache(case, rec):
             path.write_bytes(data)
             mt = path.stat().st_mtime_ns
             back = 0 if case.get("stale_equal") else 10**9
+            which = case.get("stale_which", "both")
             for sfx in (".fai", ".agp"):
-                os.utime(path.with_name(path.name + sfx), ns=(mt - back, mt - back))
+                # 'both': neither file is newer than the FASTA; 'agp' / 'fai': only that one is not, the other is a second newer
+                when = mt - back if which in ("both", sfx[1:]) else mt + 10**9
+                os.utime(path.with_name(path.name + sfx), ns=(when, when))
         fai = FastaIndex(path, case["buffer"])
         if case.get("dup"):
             # two records of one name: the tools refuse such a file; if they ever do not, what they write still has to be valid
@@ -187,6 +242,41 @@ def format_cases(draw):
 
 
 @st.composite
+def built_cases(draw):
+    def frag(k):
+        a = draw(st.integers(1, 500))
+        return ["F", f"c{k}", a, a + draw(st.integers(0, 300)), draw(st.sampled_from([1, -1]))]
+
+    def some_rows(lo, hi):
+        rows = []
+        for _ in range(draw(st.integers(lo, hi))):
+            if rows and rows[-1][0] == "F" and draw(st.integers(0, 2)) == 0:
+                rows.append(["G", draw(st.sampled_from([1, 100, 200])), "scaffold"])
+            counter[0] += 1
+            rows.append(frag(counter[0]))
+        return rows
+
+    counter = [0]
+    scaffolds = []
+    for i in range(draw(st.integers(1, 3))):
+        ops = [["new", some_rows(0, 3)]]
+        for _ in range(draw(st.integers(1, 6))):
+            kind = draw(st.sampled_from(["read", "read", "add_row", "append", "append", "reverse"]))
+            if kind == "add_row":
+                counter[0] += 1
+                ops.append(["add_row", frag(counter[0]) if draw(st.integers(0, 3)) else ["G", draw(st.sampled_from([1, 200])), "scaffold"]])
+            elif kind == "append":
+                ops.append(["append", some_rows(1, 3), ["G", 200, "scaffold"] if draw(st.booleans()) else None])
+            else:
+                ops.append([kind])
+        if not any(op[0] in ("add_row", "append") for op in ops) and not ops[0][1]:
+            counter[0] += 1
+            ops.append(["add_row", frag(counter[0])])
+        scaffolds.append([f"s{i + 1}", ops])
+    return {"scaffolds": scaffolds}
+
+
+@st.composite
 def cli_cases(draw):
     if draw(st.booleans()):
         c = draw(c03.cli_cases())
@@ -211,12 +301,15 @@ def cache_cases(draw):
         g["records"] = [r for r in g["records"] if not r[0].startswith("#")] or [["r1", "", "ACGTAC", 60, "\n"]]
         case["stale"] = g
         case["stale_equal"] = draw(st.booleans())
+        case["stale_which"] = draw(st.sampled_from(["both", "agp", "fai"]))
     return case
 
 
 SUBS = [
     Sub("format", kind="hyp", strategy=format_cases, body=body_format,
         budget={"quick": 8000, "thorough": 150000}, desc="format_agp on arbitrary assemblies"),
+    Sub("built", kind="hyp", strategy=built_cases, body=body_built,
+        budget={"quick": 6000, "thorough": 100000}, desc="scaffolds grown step by step (add_row / append_scaffold with and without gap / reverse) with the length properties read in between; AGP valid and last object end = Scaffold.length"),
     Sub("remap", kind="hyp", strategy=lambda: c01.cases().map(lambda c: {k: v for k, v in c.items() if k != "no_default_gap"}), body=body_remap,
         budget={"quick": 12000, "thorough": 250000}, desc="format_agp on every assembly returned by remapping"),
     Sub("cli", kind="hyp", strategy=cli_cases, body=body_cli,
